@@ -1,259 +1,18 @@
 package main
 
 import (
-	"fmt"
 	"go/ast"
-	"go/parser"
-	"go/token"
-	"os"
-	"path/filepath"
-	"sort"
-	"strconv"
-	"strings"
+
+	"verifgo/facts"
 )
 
-// pkgs whose package-level constants are exported to Lean, with their Lean namespace.
-var constPkgs = []struct{ dir, ns string }{
-	{"channel", "Channel"},
-	{"response", "Response"},
-	{"driver/netconf", "Netconf"},
-	{"driver/network", "Network"},
-	{"driver/generic", "Generic"},
-	{"transport", "Transport"},
-	{"util", "Util"},
-	{"platform", "Platform"},
-}
+// Thin aliases so translator parts (gen_*.go) can keep using the short names.
+type constVal = facts.ConstVal
 
-type constVal struct {
-	isStr bool
-	s     string
-	n     int64
-	isBool bool
-	b     bool
-}
-
-func parseDir(dir string) map[string]*ast.File {
-	fset := token.NewFileSet()
-	files := map[string]*ast.File{}
-	ents, err := os.ReadDir(dir)
-	if err != nil {
-		fmt.Fprintln(os.Stderr, "extract: cannot read", dir, err)
-		os.Exit(2)
-	}
-	for _, e := range ents {
-		n := e.Name()
-		if e.IsDir() || !strings.HasSuffix(n, ".go") || strings.HasSuffix(n, "_test.go") || strings.HasPrefix(n, "zz_verif") {
-			continue
-		}
-		f, err := parser.ParseFile(fset, filepath.Join(dir, n), nil, parser.ParseComments)
-		if err != nil {
-			fmt.Fprintln(os.Stderr, "extract: parse", n, err)
-			os.Exit(2)
-		}
-		files[n] = f
-	}
-	return files
-}
-
-func sortedNames(m map[string]*ast.File) []string {
-	var ns []string
-	for n := range m {
-		ns = append(ns, n)
-	}
-	sort.Strings(ns)
-	return ns
-}
-
-// evalConst evaluates the small constant language the repo uses: literals, +, *, -, references to
-// constants of the same package, and the time.X unit names (as nanoseconds).
-func evalConst(e ast.Expr, env map[string]constVal) (constVal, bool) {
-	switch x := e.(type) {
-	case *ast.BasicLit:
-		switch x.Kind {
-		case token.STRING:
-			s, err := strconv.Unquote(x.Value)
-			if err != nil {
-				return constVal{}, false
-			}
-			return constVal{isStr: true, s: s}, true
-		case token.INT:
-			n, err := strconv.ParseInt(strings.ReplaceAll(x.Value, "_", ""), 0, 64)
-			if err != nil {
-				return constVal{}, false
-			}
-			return constVal{n: n}, true
-		case token.CHAR:
-			s, err := strconv.Unquote(x.Value)
-			if err != nil || len(s) == 0 {
-				return constVal{}, false
-			}
-			return constVal{n: int64([]rune(s)[0])}, true
-		}
-	case *ast.Ident:
-		if x.Name == "true" || x.Name == "false" {
-			return constVal{isBool: true, b: x.Name == "true"}, true
-		}
-		v, ok := env[x.Name]
-		return v, ok
-	case *ast.ParenExpr:
-		return evalConst(x.X, env)
-	case *ast.CallExpr:
-		// conversions like byte(255), InChannelAuthType("x")
-		if len(x.Args) == 1 {
-			return evalConst(x.Args[0], env)
-		}
-	case *ast.UnaryExpr:
-		v, ok := evalConst(x.X, env)
-		if ok && x.Op == token.SUB && !v.isStr {
-			return constVal{n: -v.n}, true
-		}
-	case *ast.BinaryExpr:
-		a, ok1 := evalConst(x.X, env)
-		b, ok2 := evalConst(x.Y, env)
-		if !ok1 || !ok2 {
-			return constVal{}, false
-		}
-		if a.isStr && b.isStr && x.Op == token.ADD {
-			return constVal{isStr: true, s: a.s + b.s}, true
-		}
-		if !a.isStr && !b.isStr {
-			switch x.Op {
-			case token.ADD:
-				return constVal{n: a.n + b.n}, true
-			case token.SUB:
-				return constVal{n: a.n - b.n}, true
-			case token.MUL:
-				return constVal{n: a.n * b.n}, true
-			}
-		}
-	}
-	return constVal{}, false
-}
-
-func leanBytes(s string) string {
-	if len(s) == 0 {
-		return "[]"
-	}
-	parts := make([]string, len(s))
-	for i := 0; i < len(s); i++ {
-		parts[i] = strconv.Itoa(int(s[i]))
-	}
-	return "[" + strings.Join(parts, ",") + "]"
-}
-
-func leanIdent(s string) string {
-	// Lean identifiers: keep ASCII letters/digits/underscore
-	var b strings.Builder
-	for _, r := range s {
-		if r == '_' || (r >= '0' && r <= '9') || (r >= 'a' && r <= 'z') || (r >= 'A' && r <= 'Z') {
-			b.WriteRune(r)
-		} else {
-			b.WriteRune('_')
-		}
-	}
-	return "«" + b.String() + "»"
-}
-
-func pkgConsts(dir string) (map[string]constVal, []string) {
-	files := parseDir(filepath.Join(*repo, dir))
-	env := map[string]constVal{}
-	var order []string
-	// two passes so forward references inside a package resolve
-	for pass := 0; pass < 3; pass++ {
-		for _, fn := range sortedNames(files) {
-			for _, d := range files[fn].Decls {
-				gd, ok := d.(*ast.GenDecl)
-				if !ok || gd.Tok != token.CONST {
-					continue
-				}
-				for _, sp := range gd.Specs {
-					vs := sp.(*ast.ValueSpec)
-					for i, name := range vs.Names {
-						if i >= len(vs.Values) || name.Name == "_" {
-							continue
-						}
-						if _, done := env[name.Name]; done {
-							continue
-						}
-						if v, ok := evalConst(vs.Values[i], env); ok {
-							env[name.Name] = v
-							order = append(order, name.Name)
-						}
-					}
-				}
-			}
-		}
-	}
-	sort.Strings(order)
-	return env, order
-}
-
-func genConsts() string {
-	var b strings.Builder
-	b.WriteString("-- GENERATED by go/cmd/extract from /repo's working tree; do not edit.\n")
-	b.WriteString("import ScrapliModel.Bytes\nnamespace Scrapli.Gen\n")
-	for _, p := range constPkgs {
-		env, order := pkgConsts(p.dir)
-		fmt.Fprintf(&b, "\nnamespace %s\n", p.ns)
-		for _, n := range order {
-			v := env[n]
-			switch {
-			case v.isStr:
-				fmt.Fprintf(&b, "def %s : Bytes := %s\n", leanIdent(n), leanBytes(v.s))
-			case v.isBool:
-				fmt.Fprintf(&b, "def %s : Bool := %v\n", leanIdent(n), v.b)
-			case v.n >= 0:
-				fmt.Fprintf(&b, "def %s : Nat := %d\n", leanIdent(n), v.n)
-			default:
-				fmt.Fprintf(&b, "def %s : Int := %d\n", leanIdent(n), v.n)
-			}
-		}
-		if p.dir == "response" {
-			b.WriteString(genFailedWhenContains())
-		}
-		fmt.Fprintf(&b, "end %s\n", p.ns)
-	}
-	b.WriteString("\nend Scrapli.Gen\n")
-	return b.String()
-}
-
-// genFailedWhenContains extracts the [][]byte literal assigned to FailedWhenContains in
-// response.NewNetconfResponse.
-func genFailedWhenContains() string {
-	files := parseDir(filepath.Join(*repo, "response"))
-	var items []string
-	found := false
-	for _, fn := range sortedNames(files) {
-		ast.Inspect(files[fn], func(n ast.Node) bool {
-			fd, ok := n.(*ast.FuncDecl)
-			if !ok || fd.Name.Name != "NewNetconfResponse" {
-				return true
-			}
-			ast.Inspect(fd, func(m ast.Node) bool {
-				kv, ok := m.(*ast.KeyValueExpr)
-				if !ok {
-					return true
-				}
-				if id, ok := kv.Key.(*ast.Ident); !ok || id.Name != "FailedWhenContains" {
-					return true
-				}
-				cl, ok := kv.Value.(*ast.CompositeLit)
-				if !ok {
-					return true
-				}
-				found = true
-				for _, el := range cl.Elts {
-					if v, ok := evalConst(el, nil); ok && v.isStr {
-						items = append(items, leanBytes(v.s))
-					}
-				}
-				return false
-			})
-			return false
-		})
-	}
-	if !found {
-		return "-- FailedWhenContains literal not found\ndef netconfFailedWhenContains : List Bytes := []\n"
-	}
-	return "def netconfFailedWhenContains : List Bytes := [" + strings.Join(items, ", ") + "]\n"
-}
+func parseDir(dir string) map[string]*ast.File                       { return facts.ParseDir(dir) }
+func sortedNames(m map[string]*ast.File) []string                    { return facts.SortedNames(m) }
+func evalConst(e ast.Expr, env map[string]constVal) (constVal, bool) { return facts.EvalConst(e, env) }
+func leanBytes(s string) string                                      { return facts.LeanBytes(s) }
+func leanIdent(s string) string                                      { return facts.LeanIdent(s) }
+func pkgConsts(dir string) (map[string]constVal, []string)           { return facts.PkgConsts(dir) }
+func genConsts() string                                              { return facts.GenConsts() }
